@@ -157,7 +157,7 @@ KfSplit(site, Correct, Defect) ==
 ---------------------------------------------------------------------------
 (* Primitive matchers (src/primitive.rs): one action                       *)
 
-LeafOps == {"just", "any", "oneof", "noneof", "sel", "end", "empty", "cust", "cfgjust", "cfgjustr", "tree"}
+LeafOps == {"just", "any", "oneof", "noneof", "sel", "end", "empty", "cust", "cfgjust", "cfgjustr", "tree", "anyr", "selr"}
 VIn(lo, hi) == <<"In", lo, hi>>                \* the inner input of a group token: a flat range
 
 (* consume up to k tokens from cursor c: <<new cursor, tokens consumed>> *)
@@ -194,10 +194,10 @@ LeafRes(g, c, ctx) ==
   IN
   CASE o = "just" -> just(g[2])
     [] o \in {"cfgjust", "cfgjustr"} -> just(CtxToks(ctx))    \* owned, resp. through the `&T` ConfigParser impl
-    [] o = "any" -> oneTok(TRUE, VT(t), {"any"})
+    [] o \in {"any", "anyr"} -> oneTok(TRUE, VT(t), {"any"})      \* anyr: any_ref(), the token taken by reference
     [] o = "oneof" -> oneTok(t \in SeqToSet(g[2]), VT(t), {"t:" \o x : x \in SeqToSet(g[2])})
     [] o = "noneof" -> oneTok(t \notin SeqToSet(g[2]), VT(t), {"else"})
-    [] o = "sel" -> oneTok(t \in SeqToSet(g[2]), VM("sel", VT(t)), {"else"})
+    [] o \in {"sel", "selr"} -> oneTok(t \in SeqToSet(g[2]), VM("sel", VT(t)), {"else"})    \* selr: select_ref!
     [] o = "end" ->
          IF t = "" THEN [ok |-> TRUE, adv |-> 0, nc |-> c, val |-> VU, exp |-> {}, found |-> "", fs |-> 0, fe |-> 0, user |-> FALSE]
          ELSE [ok |-> FALSE, adv |-> 0, nc |-> c, val |-> VU, exp |-> {"eoi"}, found |-> t, fs |-> c, fe |-> Nxt(c), user |-> FALSE]
